@@ -283,6 +283,9 @@ def _run_units(case, ctx, cl):
                 qs.append(q)
         if len(qs) >= 6:
             b = cls(2.0, other)
+            nq = cls(math.nan, other)       # not-a-number and infinite SI values are values too: every operator acts on them as on floats
+            for x, y in ((qs[1], nq), (nq, qs[5]), (nq, nq), (qs[1], cls(math.inf, other)), (cls(-math.inf, u), qs[5])):
+                _check_ops(ctx, cls, x, y, {**info, "a": repr(float(x)), "b": repr(float(y)), "note": "non-finite operand"})
             for a in (qs[1], qs[5], qs[7]):
                 _check_ops(ctx, cls, a, b, {**info, "a": float(a), "b": [2.0, other]})
                 _check_ops(ctx, cls, a, a.as_unit(other), {**info, "a": float(a), "b": "same value in " + other})
